@@ -210,6 +210,9 @@ class _SimWriteFile(io.BytesIO):
         self._fs.files[self._path] = data
         return data
 
+    def fileno(self):
+        return self._fs.fd_of(self)
+
     def write(self, b):
         n = super().write(b)
         self._fs.log.add("WRITE", self._path, len(b), sha(bytes(b)))
@@ -231,6 +234,9 @@ class _SimReadFile(io.BytesIO):
         self._fs = fs
         self._path = path
         self._closed_once = False
+
+    def fileno(self):
+        return self._fs.fd_of(self)
 
     def close(self):
         if not self._closed_once:
@@ -259,7 +265,10 @@ class SimFS(object):
     def __init__(self, log):
         self.files = {}
         self.symlinks = {}        # key -> target: symbolic links (to directories or files)
-        self.fds = {}             # simulated file descriptors handed out by os.open
+        self.fds = {}             # simulated file descriptors handed out by os.open / fileno()
+        self.dirs = set()         # directories made with mkdir (a directory also exists as soon as a file lies under it)
+        self.modes = {}           # key -> permission bits set with chmod (default rw-r--r--)
+        self.inodes = {}          # key -> inode number, handed out on first use; travels with a rename
         self.ticks = 0            # simulated clock readings so far (one millisecond each)
         self.temp_names = _TempNames()
         self.cwd = ""             # simulated working directory of the current process, relative to SIM_ROOT
@@ -269,8 +278,9 @@ class SimFS(object):
         self.writes_seen = 0
 
     # path routing ------------------------------------------------------------------------
-    def route(self, path):
-        """Return the SimFS key for a path the program used, or None if it is a real path."""
+    def route(self, path, follow=True):
+        """Return the SimFS key for a path the program used, or None if it is a real path.
+        follow=False: the last component is not followed when it is a symbolic link (lstat, readlink, rename, unlink)."""
         if isinstance(path, bytes):
             path = path.decode("utf-8", "surrogateescape")
         if isinstance(path, int):
@@ -281,10 +291,36 @@ class SimFS(object):
             return None
         if path.startswith(SIM_ROOT + "/") or path == SIM_ROOT:
             rel = path[len(SIM_ROOT):].lstrip("/")
-            return self.resolve(rel, cwd="") if rel else "."
+            if not rel:
+                return "."
+            return self.resolve(rel, cwd="") if follow else self.resolve_nofollow(rel, cwd="")
         if posixpath.isabs(path):
             return None
-        return self.resolve(path)
+        return self.resolve(path) if follow else self.resolve_nofollow(path)
+
+    def resolve_nofollow(self, path, cwd=None):
+        head, tail = posixpath.split(path.rstrip("/")) if path.rstrip("/") else ("", "")
+        if tail in ("", ".", ".."):
+            return self.resolve(path, cwd)
+        parent = self.resolve(head, cwd) if head else self.resolve(".", cwd)
+        if parent.startswith("\0"):
+            return parent
+        return tail if parent == "." else parent + "/" + tail
+
+    def fd_of(self, handle):
+        for fd, h in self.fds.items():
+            if h is handle:
+                return fd
+        fd = 100000 + len(self.fds)
+        while fd in self.fds:
+            fd += 1
+        self.fds[fd] = handle
+        return fd
+
+    def inode(self, key):
+        if key not in self.inodes:
+            self.inodes[key] = 1000 + len(self.inodes)
+        return self.inodes[key]
 
     def resolve(self, path, cwd=None):
         """Key of a path as the kernel would resolve it from the process's working directory (symbolic links honoured)."""
@@ -297,16 +333,16 @@ class SimFS(object):
     def exists(self, key):
         if key == "." or key in self.symlinks:
             return True
-        if key in self.files:
+        if key in self.files or key in self.dirs:
             return True
         prefix = key + "/"
-        return any(k.startswith(prefix) for k in self.files)
+        return any(k.startswith(prefix) for k in self.files) or any(k.startswith(prefix) for k in self.dirs)
 
     def is_dir(self, key):
-        if key == ".":
+        if key == "." or key in self.dirs:
             return True
         prefix = key + "/"
-        return key not in self.files and any(k.startswith(prefix) for k in self.files)
+        return key not in self.files and (any(k.startswith(prefix) for k in self.files) or any(k.startswith(prefix) for k in self.dirs))
 
     def _through_file(self, key):
         parts = key.split("/")
@@ -359,39 +395,95 @@ class SimFS(object):
                 raw = _SimWriteFile(self, key, b"")
         else:
             raise HarnessError("SimFS: unsupported open mode %r" % mode)
+        raw.name = shown if isinstance(shown, str) else key
+        raw.mode = mode
         if binary:
             return raw
         return io.TextIOWrapper(raw, encoding=encoding or "utf-8", errors=errors, newline=newline,
                                 write_through=True)
 
     def remove(self, key):
+        if key in self.symlinks:                      # unlink takes the link away, not what it points to
+            self.log.add("REMOVE", key, "link")
+            del self.symlinks[key]
+            return
+        if self.is_dir(key):
+            raise IsADirectoryError(errno.EISDIR, os.strerror(errno.EISDIR), key)
         if key not in self.files:
             raise FileNotFoundError(errno.ENOENT, os.strerror(errno.ENOENT), key)
         self.log.add("REMOVE", key, len(self.files[key]))
         del self.files[key]
+        self.modes.pop(key, None)
+        self.inodes.pop(key, None)
 
     def rename(self, src, dst):
+        """rename(2): neither name is followed when it is a symbolic link; an existing destination is replaced."""
+        if src in self.symlinks:
+            self.log.add("RENAME", src, dst, "link")
+            self.files.pop(dst, None)
+            self.symlinks[dst] = self.symlinks.pop(src)
+            return
         if src not in self.files:
+            if self.is_dir(src):
+                raise HarnessError("SimFS: rename of a directory is not modelled: %r" % (src,))
             raise FileNotFoundError(errno.ENOENT, os.strerror(errno.ENOENT), src)
+        if self.is_dir(dst):
+            raise IsADirectoryError(errno.EISDIR, os.strerror(errno.EISDIR), dst)
+        parent = posixpath.dirname(dst)
+        if parent and not self.is_dir(parent):
+            raise FileNotFoundError(errno.ENOENT, os.strerror(errno.ENOENT), dst)
         self.log.add("RENAME", src, dst, len(self.files[src]), sha(self.files[src]))
+        self.symlinks.pop(dst, None)                  # a link in the way is replaced, its target is left alone
         self.files[dst] = self.files.pop(src)
+        for table in (self.modes, self.inodes):
+            table.pop(dst, None)
+            if src in table:
+                table[dst] = table.pop(src)
+
+    def mkdir(self, key, shown=None):
+        shown = key if shown is None else shown
+        if self.exists(key):
+            raise FileExistsError(errno.EEXIST, os.strerror(errno.EEXIST), shown)
+        parent = posixpath.dirname(key)
+        if parent and not self.is_dir(parent):
+            raise FileNotFoundError(errno.ENOENT, os.strerror(errno.ENOENT), shown)
+        self.log.add("MKDIR", key)
+        self.dirs.add(key)
+
+    def rmdir(self, key, shown=None):
+        shown = key if shown is None else shown
+        if not self.is_dir(key):
+            raise FileNotFoundError(errno.ENOENT, os.strerror(errno.ENOENT), shown)
+        if self.listdir(key):
+            raise OSError(errno.ENOTEMPTY, os.strerror(errno.ENOTEMPTY), shown)
+        self.log.add("RMDIR", key)
+        self.dirs.discard(key)
+
+    def chmod(self, key, mode, shown=None):
+        if not self.exists(key):
+            raise FileNotFoundError(errno.ENOENT, os.strerror(errno.ENOENT), key if shown is None else shown)
+        self.log.add("CHMOD", key, mode & 0o7777)
+        self.modes[key] = mode & 0o7777
 
     def listdir(self, key):
         prefix = "" if key == "." else key + "/"
         names = set()
-        for k in self.files:
-            if k.startswith(prefix):
-                names.add(k[len(prefix):].split("/")[0])
+        for table in (self.files, self.dirs, self.symlinks):
+            for k in table:
+                if k.startswith(prefix):
+                    names.add(k[len(prefix):].split("/")[0])
         return sorted(names)
 
-    def stat(self, key):
-        if self.is_dir(key):
-            mode, size = stat_mod.S_IFDIR | 0o755, 0
+    def stat(self, key, nofollow=False):
+        if nofollow and key in self.symlinks:
+            mode, size = stat_mod.S_IFLNK | 0o777, len(self.symlinks[key])
+        elif self.is_dir(key):
+            mode, size = stat_mod.S_IFDIR | self.modes.get(key, 0o755), 0
         elif key in self.files:
-            mode, size = stat_mod.S_IFREG | 0o644, len(self.files[key])
+            mode, size = stat_mod.S_IFREG | self.modes.get(key, 0o644), len(self.files[key])
         else:
             raise FileNotFoundError(errno.ENOENT, os.strerror(errno.ENOENT), key)
-        return os.stat_result((mode, 1, 1, 1, 0, 0, size, 0, 0, 0))
+        return os.stat_result((mode, self.inode(key), 1, 1, 0, 0, size, 0, 0, 0))
 
     def snapshot(self):
         return dict(self.files)
@@ -427,14 +519,28 @@ class _Seams(object):
         real_listdir = os.listdir
         real_os_open = os.open
         real_access = os.access
+        real_lexists, real_islink, real_readlink = posixpath.lexists, posixpath.islink, os.readlink
 
         def sim_open(file, mode="r", *a, **kw):
+            if isinstance(file, int) and file in fs.fds:
+                return sim_fdopen(file, mode, *a, **kw)
+            opener = kw.pop("opener", None)
+            if opener is not None:                  # tempfile.NamedTemporaryFile: the opener makes the file and hands back a descriptor
+                flags = os.O_RDONLY if mode[:1] == "r" and "+" not in mode else (os.O_RDWR if "+" in mode else os.O_WRONLY) | os.O_CREAT
+                fd = opener(file, flags)
+                if fd in fs.fds:
+                    return sim_fdopen(fd, mode, *a, **kw)
+                return real_open(fd, mode, *a, **kw)
             key = fs.route(file)
             if key is None:
                 return real_open(file, mode, *a, **kw)
             return fs.open(key, mode, *a, shown=os.fspath(file) if not isinstance(file, int) else file, **kw)
 
         def sim_stat(path, *a, **kw):
+            if isinstance(path, int) and path in fs.fds:
+                return sim_fstat(path)
+            if kw.get("follow_symlinks") is False:
+                return sim_lstat(path)
             key = fs.route(path)
             if key is None:
                 return real_stat(path, *a, **kw)
@@ -442,11 +548,35 @@ class _Seams(object):
             return fs.stat(key)
 
         def sim_lstat(path, *a, **kw):
-            key = fs.route(path)
+            key = fs.route(path, follow=False)
             if key is None:
                 return real_lstat(path, *a, **kw)
             fs.log.add("STAT", key, fs.exists(key))
-            return fs.stat(key)
+            return fs.stat(key, nofollow=True)
+
+        def sim_lexists(path):
+            key = fs.route(path, follow=False)
+            if key is None:
+                return real_lexists(path)
+            r = fs.exists(key)
+            fs.log.add("EXISTS", key, r)
+            return r
+
+        def sim_islink(path):
+            key = fs.route(path, follow=False)
+            if key is None:
+                return real_islink(path)
+            return key in fs.symlinks
+
+        def sim_readlink(path, *a, **kw):
+            key = fs.route(path, follow=False)
+            if key is None:
+                return real_readlink(path, *a, **kw)
+            if key in fs.symlinks:
+                return fs.symlinks[key]
+            if fs.exists(key):
+                raise OSError(errno.EINVAL, os.strerror(errno.EINVAL), os.fspath(path))
+            raise FileNotFoundError(errno.ENOENT, os.strerror(errno.ENOENT), os.fspath(path))
 
         def sim_exists(path):
             key = fs.route(path)
@@ -485,13 +615,13 @@ class _Seams(object):
             return r
 
         def sim_remove(path, *a, **kw):
-            key = fs.route(path)
+            key = fs.route(path, follow=False)
             if key is None:
                 return real_remove(path, *a, **kw)
             return fs.remove(key)
 
         def sim_rename(src, dst, *a, **kw):
-            ks, kd = fs.route(src), fs.route(dst)
+            ks, kd = fs.route(src, follow=False), fs.route(dst, follow=False)
             if ks is None and kd is None:
                 return real_rename(src, dst, *a, **kw)
             if ks is None or kd is None:
@@ -529,9 +659,7 @@ class _Seams(object):
                         fs.log.add("CREATE", key)
                     mode = "r+b"
             handle = fs.open(key, mode, shown=os.fspath(path))
-            fd = 100000 + len(fds)
-            fds[fd] = handle
-            return fd
+            return fs.fd_of(handle)
 
         def sim_fdopen(fd, mode="r", *a, **kw):
             if fd in fds:
@@ -552,9 +680,101 @@ class _Seams(object):
                 return fds[fd].write(data)
             return real_write(fd, data)
 
+        def sim_fstat(fd):
+            if fd in fds:
+                return fs.stat(fds[fd]._path)
+            return real_fstat(fd)
+
+        def fd_noop(real):
+            def call(fd, *a, **kw):
+                if fd in fds:
+                    return None
+                return real(fd, *a, **kw)
+            return call
+
+        def sim_sendfile(out_fd, in_fd, *a, **kw):
+            if out_fd in fds or in_fd in fds:       # shutil falls back to an ordinary copy loop on this
+                raise OSError(errno.ENOTSOCK, os.strerror(errno.ENOTSOCK))
+            return real_sendfile(out_fd, in_fd, *a, **kw)
+
+        def sim_isatty(fd):
+            return False if fd in fds else real_isatty(fd)
+
+        def sim_os_read(fd, n):
+            if fd in fds:
+                return fds[fd].read(n)
+            return real_os_read(fd, n)
+
+        def sim_chmod(path, mode, *a, **kw):
+            if isinstance(path, int) and path in fds:
+                return None
+            key = fs.route(path)
+            if key is None:
+                return real_chmod(path, mode, *a, **kw)
+            return fs.chmod(key, mode, os.fspath(path))
+
+        def sim_mkdir(path, mode=0o777, *a, **kw):
+            key = fs.route(path)
+            if key is None:
+                return real_mkdir(path, mode, *a, **kw)
+            return fs.mkdir(key, os.fspath(path))
+
+        def sim_rmdir(path, *a, **kw):
+            key = fs.route(path)
+            if key is None:
+                return real_rmdir(path, *a, **kw)
+            return fs.rmdir(key, os.fspath(path))
+
+        def sim_utime(path, *a, **kw):
+            if isinstance(path, int) and path in fds:
+                return None
+            key = fs.route(path)
+            if key is None:
+                return real_utime(path, *a, **kw)
+            if not fs.exists(key):
+                raise FileNotFoundError(errno.ENOENT, os.strerror(errno.ENOENT), os.fspath(path))
+            return None
+
+        def sim_listxattr(path=None, *a, **kw):
+            if (isinstance(path, int) and path in fds) or (not isinstance(path, int) and path is not None and fs.route(path) is not None):
+                return []
+            return real_listxattr(path, *a, **kw)
+
+        def sim_symlink(src, dst, *a, **kw):
+            key = fs.route(dst, follow=False)
+            if key is None:
+                return real_symlink(src, dst, *a, **kw)
+            if fs.exists(key):
+                raise FileExistsError(errno.EEXIST, os.strerror(errno.EEXIST), os.fspath(dst))
+            fs.log.add("SYMLINK", key, os.fspath(src))
+            fs.symlinks[key] = os.fspath(src)
+
+        real_fstat, real_sendfile, real_isatty, real_os_read = os.fstat, os.sendfile, os.isatty, os.read
+        real_chmod, real_mkdir, real_rmdir, real_utime = os.chmod, os.mkdir, os.rmdir, os.utime
+        real_listxattr, real_symlink = os.listxattr, os.symlink
         self._patch(os, "fdopen", sim_fdopen)
         self._patch(os, "close", sim_close)
         self._patch(os, "write", sim_write)
+        self._patch(os, "read", sim_os_read)
+        self._patch(os, "fstat", sim_fstat)
+        self._patch(os, "fsync", fd_noop(os.fsync))
+        self._patch(os, "fdatasync", fd_noop(os.fdatasync))
+        self._patch(os, "fchmod", fd_noop(os.fchmod))
+        self._patch(os, "sendfile", sim_sendfile)
+        self._patch(os, "isatty", sim_isatty)
+        self._patch(os, "chmod", sim_chmod)
+        self._patch(os, "mkdir", sim_mkdir)
+        self._patch(os, "rmdir", sim_rmdir)
+        self._patch(os, "utime", sim_utime)
+        self._patch(os, "listxattr", sim_listxattr)
+        self._patch(os, "symlink", sim_symlink)
+        self._patch(os, "readlink", sim_readlink)
+        try:
+            import fcntl
+            self._patch(fcntl, "flock", fd_noop(fcntl.flock))
+            self._patch(fcntl, "lockf", fd_noop(fcntl.lockf))
+        except ImportError:
+            pass
 
         real_expanduser = posixpath.expanduser
         real_chdir, real_getcwd = os.chdir, os.getcwd
@@ -586,7 +806,8 @@ class _Seams(object):
         self._patch(os, "stat", sim_stat)
         self._patch(os, "lstat", sim_lstat)
         self._patch(posixpath, "exists", sim_exists)
-        self._patch(posixpath, "lexists", sim_exists)
+        self._patch(posixpath, "lexists", sim_lexists)
+        self._patch(posixpath, "islink", sim_islink)
         self._patch(posixpath, "isfile", sim_isfile)
         self._patch(posixpath, "isdir", sim_isdir)
         self._patch(posixpath, "getsize", sim_getsize)
@@ -726,9 +947,10 @@ def cpu_limit(seconds):
 # ---------------------------------------------------------------------------------------------
 
 class ProcResult(object):
-    __slots__ = ("status", "stdout", "stderr", "exception", "events", "steps")
+    __slots__ = ("status", "stdout", "stderr", "exception", "events", "steps", "transient")
 
     def __init__(self):
+        self.transient = frozenset()   # paths that existed neither before nor after the process: its own scratch files
         self.status = None
         self.stdout = ""
         self.stderr = ""
@@ -745,10 +967,10 @@ class ProcResult(object):
         out = []
         for ev in self.events:
             if ev[1] in ("TRUNCATE", "WRITE", "CREATE", "REMOVE"):
-                if key is None or ev[2] == key:
+                if (key is None and ev[2] not in self.transient) or ev[2] == key:
                     out.append(ev)
             elif ev[1] == "RENAME":
-                if key is None or ev[2] == key or ev[3] == key:
+                if (key is None and not (ev[2] in self.transient and ev[3] in self.transient)) or ev[2] == key or ev[3] == key:
                     out.append(ev)
         return out
 
@@ -796,6 +1018,7 @@ class SimWorld(object):
         mod = self.mods[cli]
         res = ProcResult()
         mark = self.log.mark()
+        there_before = set(self.fs.files)
         self.invocations += 1
         self.log.add("INVOKE", cli, list(argv))
         out, err = io.StringIO(), io.StringIO()
@@ -837,6 +1060,8 @@ class SimWorld(object):
         self.log.add("STDOUT", sha(res.stdout.encode()), res.stdout.split("\n", 1)[0][:80])
         self.log.add("EXIT", res.status, res.exception[0] if res.exception else None)
         res.events = self.log.since(mark)
+        touched = set(ev[2] for ev in res.events if ev[1] in ("CREATE", "WRITE", "TRUNCATE", "REMOVE", "RENAME"))
+        res.transient = frozenset(k for k in touched if k not in there_before and k not in self.fs.files)
         self.transcript.append((cli, [str(a) for a in argv], res.status, res.stdout, res.exception[0] if res.exception else None))
         return res
 
